@@ -129,7 +129,9 @@ def gen_s1(rng: random.Random, cfgs: list[str]) -> dict:
 
     return {"stratum": "S1", "cfg": rng.choice(cfgs), "maxsize": rng.choice([None, 0, 1, 2, 2, 3]),
             "typed": rng.random() < 0.5, "ttl": ttl, "always_checkpoint": rng.random() < 0.3,
-            "seq": seq, "probe": keys, "alias": alias}  # fmt: skip
+            "seq": seq, "probe": keys, "alias": alias,
+            # the argument is passed by keyword in a share of the histories
+            "kw": rng.random() < 0.35}  # fmt: skip
 
 
 def execute_s1(case: dict) -> dict:
@@ -179,12 +181,12 @@ def execute_s1(case: dict) -> dict:
 
             if stdlib is not None:
                 s0 = len(stdlib[1])
-                stdlib[0](arg)
+                stdlib[0](arg=arg) if case.get("kw") else stdlib[0](arg)
                 if (len(stdlib[1]) > s0) != must:
                     viol.append(("reference-model-disagrees-with-functools", {"arg": repr(arg)}))
 
             try:
-                tok = await fn(arg)
+                tok = await (fn(arg=arg) if case.get("kw") else fn(arg))
             except BaseException as e:  # noqa: BLE001
                 viol.append(("internal-error", {"exc": repr(e), "arg": repr(arg)}))
                 return
